@@ -15,7 +15,15 @@ HEAD=$(git -C /repo rev-parse HEAD)
 mkdir -p $ISO
 if [ ! -d $ISO/repo ]; then git -C /repo worktree add --detach $ISO/repo "$HEAD" >/dev/null 2>&1 || exit 2; fi
 git -C $ISO/repo checkout -q -- . ; git -C $ISO/repo checkout -q --detach "$HEAD" || exit 2
-if [ ! -d $ISO/target ]; then mkdir -p $ISO/target; cp -a /verif/target/release $ISO/target/release; rm -rf $ISO/target/release/.fingerprint/vcheck-* ; fi
+# hard-link copy of the harness target dir (no extra disk); everything that will be rebuilt here
+# (the samyama crates — their path differs — and the harness itself) is unlinked first so the
+# originals are never written through a shared inode, and the cargo lock is private
+if [ ! -d $ISO/target ]; then
+  mkdir -p $ISO/target; cp -al /verif/target/release $ISO/target/release
+  rm -f $ISO/target/release/.cargo-lock
+  rm -rf $ISO/target/release/.fingerprint/vcheck-* $ISO/target/release/.fingerprint/samyama* $ISO/target/release/incremental
+  find $ISO/target/release $ISO/target/release/deps -maxdepth 1 \( -name 'libsamyama*' -o -name 'samyama*' -o -name 'vc_*' -o -name 'libvcheck*' -o -name 'vcheck*' \) -exec rm -rf {} +
+fi
 # harness copy
 mkdir -p $ISO/harness $ISO/verif/evidence $ISO/verif/replays
 rsync -a --delete --exclude target /verif/harness/ $ISO/harness/
